@@ -186,6 +186,15 @@ pub struct World {
     /// own atomic steps of the current call per thread, and their cap
     pub call_steps: Vec<u64>,
     pub call_cap: u64,
+    /// address of the allocator under test (0 = none): lets the observer read a tree entry
+    /// through the public API right before a tree-change call's compare-exchange on it
+    pub alloc_ptr: usize,
+    /// per thread: the call in flight is a tree change (change_tree)
+    pub cur_change: Vec<bool>,
+    /// per thread: (tree, was reserved) read right before the pending compare-exchange
+    pub pending_change: Vec<Option<(usize, bool)>>,
+    /// a tree-change call's compare-exchange succeeded on an entry that was reserved: (thread, tree, step)
+    pub change_on_reserved: Option<(usize, usize, u64)>,
     /// did the last atomic operation of each thread change memory?
     pub last_write: Vec<bool>,
     pub prev_load: Vec<bool>,
@@ -243,6 +252,10 @@ impl World {
             steps: 0,
             step_cap: 200_000,
             call_steps: vec![0; n],
+            alloc_ptr: 0,
+            cur_change: vec![false; n],
+            pending_change: vec![None; n],
+            change_on_reserved: None,
             call_cap: std::env::var("LLSIM_CALL_CAP")
                 .ok()
                 .and_then(|s| s.parse().ok())
@@ -452,6 +465,22 @@ impl World {
                 });
             }
         }
+        // C15: what does the entry look like on which a tree-change call is about to
+        // compare-exchange?  (threads are serialised: this is the value the exchange meets)
+        if tid < self.n
+            && self.cur_change[tid]
+            && self.alloc_ptr != 0
+            && matches!(op, Op::Cas | Op::CasWeak | Op::UpdateCas)
+            && let Some(off) = self.trees.off(addr)
+            && _size > 0
+        {
+            let tree = off / _size;
+            let alloc = unsafe { &*(self.alloc_ptr as *const llfree::LLFree<'static>) };
+            if tree < alloc.trees.len() {
+                let reserved = masked(|| alloc.trees.stats_at(llfree::TreeId(tree)).2);
+                self.pending_change[tid] = Some((tree, reserved));
+            }
+        }
         // solo windows
         if let Some((t, used)) = self.solo_active {
             if t == tid {
@@ -492,6 +521,8 @@ impl World {
     /// The call of `tid` returned: ends a solo window.
     pub fn call_end(&mut self, tid: usize) {
         self.cur_call[tid] = None;
+        self.cur_change[tid] = false;
+        self.pending_change[tid] = None;
         self.call_steps[tid] = 0;
         if let Some((t, _)) = self.solo_active
             && t == tid
@@ -517,6 +548,13 @@ impl World {
         self.trace_hash.add(success as u64);
         if tid < self.n {
             self.last_write[tid] = success;
+            if let Some((tree, reserved)) = self.pending_change[tid].take()
+                && success
+                && reserved
+                && self.change_on_reserved.is_none()
+            {
+                self.change_on_reserved = Some((tid, tree, self.steps));
+            }
         }
         if !success {
             if matches!(op, Op::Cas | Op::CasWeak | Op::UpdateCas) {
